@@ -104,3 +104,19 @@ Definition check_axis (lo hi delta : Q) (accepted : bool) (xl : list Q) : bool :
                                   (pow2 (-46) * (Qabs lo + Qabs hi + Qabs delta + 1)))
                (seq 0 (length xl))
   else negb accepted.
+
+(* utility.find_index with a non-zero padding is not reachable from the caching classes; it is observed
+   through Interpolate1DLinear(x, f = [0, 1, 2, ..], extrapolate=True, 'nearest', extrapolation_range = padding):
+   ValueError for the indices -2 / top+1, f[0] = 0 for -1, f[top] = top for top, and
+   i + (v - x_i) / (x_(i+1) - x_i) inside.  One case = one node array, one padding, a list of
+   (v, kind (0 value, 2 ValueError), value). *)
+Definition find_ok (xl : list Q) (pad : Q) (obs : Q * Z * Q) : bool :=
+  let '(v, kind, val) := obs in
+  let x := nthQ xl in let top := topof xl in
+  let i := find_index_pad x top v pad in
+  if (i =? -2)%Z || (i =? top + 1)%Z then (kind =? 2)%Z
+  else (kind =? 0)%Z &&
+       (if (i =? -1)%Z then Qeq_bool val 0
+        else if (i =? top)%Z then Qeq_bool val (inject_Z top)
+        else Qle_bool (Qabs (val - (inject_Z i + (v - x i) / (x (i + 1)%Z - x i)))) (pow2 (-40) * (inject_Z top + 1))).
+Definition check_find (xl : list Q) (pad : Q) (obs : list (Q * Z * Q)) : bool := forallb (find_ok xl pad) obs.
